@@ -89,6 +89,103 @@ macro_rules! family {
                 out
             }
 
+
+            /// Drive a live SpannedIter (the lexer is consumed by `spanned()`): items versus a fresh lexer over the rest,
+            /// bumps through DerefMut, and - the part a "fused" iterator gets wrong - polling again after a None once the
+            /// inner lexer was moved on (partial lexers return None for an unfinished item, not for the end).
+            #[allow(clippy::too_many_arguments)]
+            fn spanned_live<'s, T>(lex: Lexer<'s, T>, src: &'s $Src, bytes: &[u8], partial: bool, start: &mut usize, end: &mut usize, ex: &mut Ex, rng: &mut Rng, hist: &mut Vec<String>, broken: &mut bool) -> Lexer<'s, T>
+            where
+                T: Logos<'s, Source = $Src, Extras = Ex> + Debug + Clone,
+            {
+                let len = bytes.len();
+                let mut it = lex.spanned();
+                let mut after_none = false;
+                for _ in 0..(2 + rng.below(5)) {
+                    if *broken {
+                        break;
+                    }
+                    let do_bump = if after_none { rng.below(2) == 0 } else { rng.below(4) == 0 };
+                    if do_bump {
+                        let mut cands = vec![];
+                        for n in 0..=(len - *end).min(6) {
+                            if model_boundary(bytes, *end + n, IS_STR) {
+                                cands.push(n);
+                            }
+                        }
+                        let n = cands[rng.below(cands.len())];
+                        hist.push(format!("spanned.bump({n})"));
+                        if std::panic::catch_unwind(std::panic::AssertUnwindSafe(|| it.bump(n))).is_err() {
+                            fail(hist, "in-range-bump-panicked", format!("bump({n}) through SpannedIter's DerefMut from end {} (source length {len}) panicked", *end));
+                            *broken = true;
+                            break;
+                        }
+                        *end += n;
+                    } else {
+                        hist.push("spanned.next".into());
+                        let (pr, psp, pex) = predict::<T>(&src[*end..], partial, ex.clone());
+                        let got = it.next();
+                        let r = format!("{:?}", got.as_ref().map(|(r, _)| r));
+                        let want = (psp.start + *end)..(psp.end + *end);
+                        let sp = it.span();
+                        let pair_ok = match &got {
+                            Some((_, gsp)) => *gsp == sp,
+                            None => true,
+                        };
+                        if r != pr || sp != want || !pair_ok || it.extras != pex {
+                            fail(hist, "spanned-differs", format!("SpannedIter::next() at end {}: got {r} (pair span {:?}, lexer span {sp:?}, extras {:?}); a fresh lexer over the rest gives {pr} {want:?} extras {pex:?}", *end, got.as_ref().map(|(_, s)| s.clone()), it.extras));
+                            *broken = true;
+                            break;
+                        }
+                        after_none = got.is_none();
+                        *start = sp.start;
+                        *end = sp.end;
+                        *ex = it.extras.clone();
+                    }
+                }
+                (*it).clone()
+            }
+
+            /// `a.clone_from(&b)`: afterwards `a` must be indistinguishable from `b.clone()` (position, mode, extras).
+            /// The donor is a fresh lexer of the other mode half of the time, advanced a few items.
+            #[allow(clippy::too_many_arguments)]
+            fn clone_from_donor<'s, T>(lex: &mut Lexer<'s, T>, src: &'s $Src, partial: &mut bool, start: &mut usize, end: &mut usize, ex: &mut Ex, rng: &mut Rng, hist: &mut Vec<String>, broken: &mut bool)
+            where
+                T: Logos<'s, Source = $Src, Extras = Ex> + Debug + Clone,
+            {
+                let dpartial = if rng.below(2) == 0 { !*partial } else { *partial };
+                let dex = Ex { n: 50 + rng.below(5) as u32, tag: Box::new(500 + rng.below(5) as u32) };
+                let mut donor: Lexer<'s, T> = if dpartial { Lexer::partial_with_extras(src, dex) } else { Lexer::with_extras(src, dex) };
+                let k = rng.below(4);
+                for _ in 0..k {
+                    let _ = donor.next();
+                }
+                hist.push(format!("clone_from(donor partial={dpartial} advanced {k})"));
+                // the reverse direction first: a scratch lexer of the donor's mode overwritten with the current one
+                let mut scratch = donor.clone();
+                scratch.clone_from(lex);
+                let a = take_some(scratch, 3);
+                let b = take_some(lex.clone(), 3);
+                if a != b {
+                    fail(hist, "clone-from-differs", format!("x.clone_from(&cur) continues with {a:?}, cur.clone() with {b:?}"));
+                    *broken = true;
+                    return;
+                }
+                lex.clone_from(&donor);
+                let a = take_some(lex.clone(), 3);
+                let b = take_some(donor.clone(), 3);
+                if a != b || lex.span() != donor.span() || lex.extras != donor.extras {
+                    fail(hist, "clone-from-differs", format!("after cur.clone_from(&donor): cur continues with {a:?} from {:?} extras {:?}, the donor with {b:?} from {:?} extras {:?}", lex.span(), lex.extras, donor.span(), donor.extras));
+                    *broken = true;
+                    return;
+                }
+                *partial = dpartial;
+                *start = donor.span().start;
+                *end = donor.span().end;
+                *ex = donor.extras.clone();
+                hist[0] = format!("{} (now partial={dpartial})", hist[0]);
+            }
+
             macro_rules! with {
                 ($cur:expr, $lex:ident => $body:expr) => {
                     match $cur {
@@ -107,7 +204,7 @@ macro_rules! family {
                     let bytes: &[u8] = block.bytes();
                     let src: &$Src = $to_src(bytes);
                     let len = bytes.len();
-                    let partial = rng.below(4) == 0;
+                    let mut partial = rng.below(4) == 0;
                     let ex0 = Ex { n: rng.below(5) as u32, tag: Box::new(40 + rng.below(5) as u32) };
                     // constructors: Lexer::{with_extras, partial_with_extras} and the trait's lexer_with_extras
                     let via_trait = rng.below(3) == 0;
@@ -127,7 +224,7 @@ macro_rules! family {
                         if broken {
                             break;
                         }
-                        let op = rng.below(10);
+                        let op = rng.below(12);
                         match op {
                             0 | 1 | 2 => {
                                 // next
@@ -255,9 +352,25 @@ macro_rules! family {
                                 ex.n += 7;
                                 *ex.tag += 1;
                             }
-                            _ => {
-                                stats[7] += 1;
+                            9 => {
+                                // the lexer lives inside a SpannedIter for a while
+                                stats[5] += 1;
+                                cur = match cur {
+                                    Cur::A(lex) => Cur::A(spanned_live(lex, src, bytes, partial, &mut start, &mut end, &mut ex, &mut rng, &mut hist, &mut broken)),
+                                    Cur::B(lex) => Cur::B(spanned_live(lex, src, bytes, partial, &mut start, &mut end, &mut ex, &mut rng, &mut hist, &mut broken)),
+                                };
                             }
+                            10 => {
+                                stats[7] += 1;
+                                match &mut cur {
+                                    Cur::A(lex) => clone_from_donor(lex, src, &mut partial, &mut start, &mut end, &mut ex, &mut rng, &mut hist, &mut broken),
+                                    Cur::B(lex) => clone_from_donor(lex, src, &mut partial, &mut start, &mut end, &mut ex, &mut rng, &mut hist, &mut broken),
+                                }
+                            }
+                            _ => {}
+                        }
+                        if broken {
+                            break;
                         }
                         // accessors after every operation
                         #[allow(deprecated)]
@@ -322,6 +435,6 @@ pub fn sub_hist(seed: u64, count: usize, small: bool) {
     strfam::run(seed, count, &mut stats);
     bytesfam::run(seed ^ 0x5555, count, &mut stats);
     summary("hist", &[("cases", stats[9]), ("next", stats[0]), ("bump", stats[1]), ("clone_race", stats[2]), ("store_clone", stats[3]), ("morph", stats[4]),
-        ("spanned", stats[5]), ("extras_mut", stats[6]), ("accessor_checks", stats[8]), ("nontrivial", stats[9])]);
+        ("spanned", stats[5]), ("extras_mut", stats[6]), ("clone_from", stats[7]), ("accessor_checks", stats[8]), ("nontrivial", stats[9])]);
     sample("hist", "src=\"hé €😀 λ 1+1\" partial=false start=A: next next bump(1) morph next clone-race next spanned store-clone extras+=7 morph next ... (accessors checked after every step)");
 }
